@@ -4296,6 +4296,12 @@ int func_ffi_check_type(symtab * tab, func * func_value, unsigned int syn_level,
     {
         func_param_check_type(func_value->stab, func_value, syn_level, result);
     }
+    if (func_value->decl == NULL || func_value->decl->id == NULL)
+    {
+        *result = TYPECHECK_FAIL;
+        print_error_msg(func_value->line_no,
+                        "extern function without a name, there is no symbol to look up");
+    }
 #else
     *result = TYPECHECK_FAIL;
     print_error_msg(func_value->line_no,
